@@ -56,7 +56,8 @@ func initTimer(t *time.Timer, timeout time.Duration) *time.Timer {
 	return t
 }
 
-func stopTimer(t *time.Timer) {
+// stopTimer reports whether the timer was still active when it was stopped.
+func stopTimer(t *time.Timer) bool {
 	if !t.Stop() {
 		// Collect possibly added time from the channel
 		// if timer has been stopped and nobody collected its value.
@@ -64,7 +65,9 @@ func stopTimer(t *time.Timer) {
 		case <-t.C:
 		default:
 		}
+		return false
 	}
+	return true
 }
 
 // AcquireTimer returns a time.Timer from the pool and updates it to
@@ -88,8 +91,12 @@ func AcquireTimer(timeout time.Duration) *time.Timer {
 // Do not access the released time.Timer or read from its channel otherwise
 // data races may occur.
 func ReleaseTimer(t *time.Timer) {
-	stopTimer(t)
-	timerPool.Put(t)
+	// An expired timer may still have its send in flight (timer channels before Go 1.23, which is what
+	// go.mod selects): the drain above can miss it and the tick would land in the next user's timer.
+	// Only a timer that was stopped while active is safe to reuse.
+	if stopTimer(t) {
+		timerPool.Put(t)
+	}
 }
 
 var timerPool sync.Pool
